@@ -128,6 +128,11 @@ def run_harness(ctx, component, lines, flavour="ndebug", args=(), per_case_s=10.
             p.kill()
             o, e = p.communicate()
             rc, hang = -9, True
+        for ln in e.decode("utf-8", "replace").split("\n"):
+            if ln.startswith("[ASSERT] at "):
+                site = ln[12:].split(" ")[0].replace(str(REPO) + "/", "")
+                d = ctx.notes.setdefault("internal_assert_messages", {})
+                d[site] = d.get(site, 0) + 1
         got = o.decode("utf-8", "replace").split("\n")
         if got and got[-1] == "":
             got.pop()
